@@ -179,7 +179,7 @@ package pmm
 // cursor past the frame just below the image
 //@ pred cursorPast(a *BootMemAllocator, e uintptr) = a.kernelEndFrame < regStart(e) ==> a.lastAllocFrame + 1 != a.kernelStartFrame
 //@ func (a *BootMemAllocator) AllocFrame$1(region *multiboot.MemoryMapEntry) (cont bool)
-//@   property C02
+//@   property C02 C01
 //@   raw region
 //@   requires alloc != nil && addrof(region) < 0x1000000000000 && regSane(addrof(region)) && alloc.kernelStartFrame <= alloc.kernelEndFrame && alloc.kernelEndFrame < 0x10000000000000 && alloc.lastAllocFrame <= 0x10000000000000
 //@   requires kernelPlaced(alloc, addrof(region)) && cursorOK(alloc) && cursorEarly(alloc, addrof(region)) && cursorPast(alloc, addrof(region))
@@ -194,7 +194,7 @@ package pmm
 
 // init: the protected frame range covers every byte of the kernel image
 //@ func (alloc *BootMemAllocator) init(kernelStart uintptr, kernelEnd uintptr)
-//@   property C02
+//@   property C02 C01
 //@   requires alloc != nil && kernelStart < kernelEnd && kernelEnd <= 0x10000000000000
 //@   modifies alloc.kernelStartAddr, alloc.kernelEndAddr, alloc.kernelStartFrame, alloc.kernelEndFrame
 //@   ensures range: alloc.kernelStartFrame <= alloc.kernelEndFrame && alloc.kernelEndFrame < 0x10000000000000
@@ -285,7 +285,7 @@ package pmm
 // the count is unchanged. Which cursor value the walk leaves is the subject of the per-entry
 // contract above; the walk itself is seen through the abstraction just stated.
 //@ func (alloc *BootMemAllocator) AllocFrame() (f mm.Frame, e *kernel.Error)
-//@   property C02
+//@   property C02 C01
 //@   requires alloc != nil
 //@   modifies mem, alloc.lastAllocFrame, alloc.allocCount
 //@   ensures ok: e == nil ==> f == alloc.lastAllocFrame && alloc.allocCount == old(alloc.allocCount) + 1
